@@ -4,7 +4,7 @@
     exactly as many identifiers as inference adds columns (C07_star_arity_partial), and an
     identifier that is a reserved word of the engine is always quoted
     (C07_quoted_partial; the keyword table is regenerated from reserved.go). *)
-From Verif Require Import Model.Compile Spec.PgScope Judge.JQ Judge.J02 Proofs.ColumnsFacts.
+From Verif Require Import Model.Compile Spec.PgScope Judge.JQ Judge.J02 Proofs.ColumnsFacts Proofs.ExpandFacts.
 Open Scope string_scope.
 Open Scope list_scope.
 
@@ -29,3 +29,25 @@ Print Assumptions C07_quoted_partial.
 Theorem C07_unreserved_verbatim_partial : forall e s, env_reserved e s = false -> quote_ident e s = s.
 Proof. intros e s H. unfold quote_ident. rewrite H. reflexivity. Qed.
 Print Assumptions C07_unreserved_verbatim_partial.
+
+(** `*`: exactly the columns of the tables in scope - from-list order, then
+    declaration order - each qualified with its table's name exactly when its
+    name occurs more than once in scope (the quoting of each part is
+    C07_quoted_partial / C07_unreserved_verbatim_partial) *)
+Theorem C07_unqualified_star_partial : forall e tables res ref,
+  join_list (kid "Fields" ref) "." = "" -> res_name res = None ->
+  expand_cols e tables res ref = flat_map (fun t => map (star_entry e tables t) (qt_cols t)) tables.
+Proof. exact unqualified_star_entries. Qed.
+Print Assumptions C07_unqualified_star_partial.
+
+(** an entry written without qualifier resolves to exactly one column of the scope *)
+Theorem C07_bare_entry_unambiguous_partial : forall tables t c,
+  In t tables -> In c (qt_cols t) -> Nat.ltb 1 (count_name tables (qc_name c)) = false ->
+  List.length (ref_candidates tables "" (qc_name c)) = 1%nat.
+Proof. exact bare_entry_unambiguous. Qed.
+Print Assumptions C07_bare_entry_unambiguous_partial.
+
+Theorem C07_qualified_entry_partial : forall tables t c,
+  In t tables -> In c (qt_cols t) -> In c (ref_candidates tables (tn_name (qt_rel t)) (qc_name c)).
+Proof. exact qualified_entry_candidate. Qed.
+Print Assumptions C07_qualified_entry_partial.
